@@ -18,7 +18,8 @@ fn compute_facts_hash(facts: &TypedFacts) -> u64 {
 
     for (key, value) in sorted_facts {
         key.hash(&mut hasher);
-        value.as_str().hash(&mut hasher);
+        // Hash the typed rendering: `5`, `5.0` and "5" print alike but evaluate differently
+        format!("{:?}", value).hash(&mut hasher);
     }
 
     hasher.finish()
